@@ -62,10 +62,11 @@ DCopy(o) == /\ Len(dictOf) < MaxObjs
                ELSE dictOf' = Append(dictOf, Len(dictHeap) + 1) /\ dictHeap' = Append(dictHeap, dictHeap[dictOf[o]])
             /\ folded' = Append(folded, folded[o])
             /\ lastCall' = [kind |-> "copy", obj |-> o, names |-> {}]
-DNext == /\ stepsDone < MaxSteps /\ stepsDone' = stepsDone + 1
-         /\ \E o \in Objs : \/ \E u \in Calls : DUpdate(o, u)
-                            \/ DUnknown(o)
-                            \/ DCopy(o)
+Tick == stepsDone < MaxSteps /\ stepsDone' = stepsDone + 1
+DoUpdate == Tick /\ \E o \in Objs, u \in Calls : DUpdate(o, u)
+DoUnknown == Tick /\ \E o \in Objs : DUnknown(o)
+DoCopy == Tick /\ \E o \in Objs : DCopy(o)
+DNext == DoUpdate \/ DoUnknown \/ DoCopy
 DSpec == DInit /\ [][DNext]_dvars
 
 \* ---- the implementation's pack(): a zeroed buffer, every field inserted at its offset
